@@ -201,10 +201,10 @@ def real_run(prg, inputs):
     counts["order"] = any(a.pred == b.pred and a != b for a in am for b in am)
     o_re, o_ro = sa._replace_elements, sa._replace_optimize  # pylint: disable=protected-access
 
-    def w_re(elements, ret):
+    def w_re(elements, ret, *rest):
         n = len(elements)
         dropped = sum(1 for e in elements if not (e.terms and len(e.terms) > 0))
-        out = o_re(elements, ret)
+        out = o_re(elements, ret, *rest)
         counts["elems"] += len(out) - (n - dropped)
         counts["dropped"] += dropped
         return out
